@@ -607,7 +607,8 @@ def build_world(cfg):  # noqa: PLR0915, C901
                     a, b = set(before[k]), set(after[k])
                     tr.setdefault('diff_detail', {})[k] = [str(x)[:300] for x in list(a - b)[:2] + list(b - a)[:2]]
         suspicious = (tr['escaped'] or tr['spin'] or p is None or tr['resolved'] or tr['canary_in_response'] or
-                      not tr.get('wellformed', True) or
+                      not tr.get('wellformed', True) or (own is not None and not own.get('returned')) or
+                      (tr.get('status') == 500 and tr.get('body_class') == 'empty') or
                       (tr.get('state_changed') and (tr.get('status') is None or tr['status'] >= 400)))
         tr['raw_hex'] = raw.hex()[:40000] if suspicious else raw.hex()[:cfg.get('keep_hex', 0)]
         W.traces.append(tr)
@@ -889,6 +890,23 @@ def xml_mutate(rng, data, op, known_actions):
         if a is None:
             return None
         a.text = rng.choice(known_actions + ['urn:garbage', '', 'http://schemas.xmlsoap.org/ws/2004/08/eventing/Subscribe'])
+    elif op in ('delete_header', 'delete_body'):
+        x = root.find(f'{{{S12}}}' + ('Header' if op == 'delete_header' else 'Body'))
+        if x is None:
+            return None
+        root.remove(x)
+    elif op in ('delete_action', 'delete_message_id', 'delete_to'):
+        tag = {'delete_action': 'Action', 'delete_message_id': 'MessageID', 'delete_to': 'To'}[op]
+        x = root.find(f'{{{S12}}}Header/{{{WSA}}}{tag}')
+        if x is None:
+            return None
+        x.getparent().remove(x)
+    elif op == 'empty_header':
+        h = root.find(f'{{{S12}}}Header')
+        if h is None or len(h) == 0:
+            return None
+        for ch in list(h):
+            h.remove(ch)
     elif op == 'delete_header_block':
         h = root.find(f'{{{S12}}}Header')
         if h is None or len(h) == 0:
@@ -917,7 +935,8 @@ def xml_mutate(rng, data, op, known_actions):
 
 XML_OPS = ['delete_element', 'duplicate_element', 'rename_element', 'delete_attribute', 'rename_attribute', 'attribute_value',
            'add_attribute', 'text_value', 'insert_child', 'swap_siblings', 'wrong_action', 'delete_header_block', 'empty_body',
-           'deep_nesting', 'many_siblings']
+           'deep_nesting', 'many_siblings', 'delete_header', 'delete_body', 'delete_action', 'delete_message_id', 'delete_to',
+           'empty_header']
 BYTE_OPS = ['truncate', 'flip_bytes', 'non_utf8', 'empty', 'garbage', 'bom', 'encoding_decl', 'doctype_file', 'doctype_http',
             'doctype_param', 'entity_in_text', 'billion_laughs', 'dtd_external', 'comment_pi', 'null_bytes', 'xinclude']
 PATH_OPS = ['other_service', 'unknown_service', 'unknown_device', 'empty_path', 'root_path', 'deeper', 'double_slash', 'bad_url',
